@@ -197,4 +197,553 @@ theorem c15_mirrorMap_inj (my : Int) : Function.Injective (fun p : Px => (p.1, m
   · exact e.1
   · have := e.2; omega
 
+/-! ### the clean-up stages read no coordinates -/
+
+theorem c15_foldE_map {α β γ : Type} (φ : β → γ) (f : β → α → Except Err β) (g : γ → α → Except Err γ)
+    (h : ∀ b a, g (φ b) a = (f b a).map φ) (l : List α) (b : β) :
+    foldE g (φ b) l = (foldE f b l).map φ := by
+  induction l generalizing b with
+  | nil => rfl
+  | cons a l ih =>
+    simp only [foldE, h]
+    cases f b a with
+    | error e => rfl
+    | ok b' => exact ih b'
+
+theorem c15_F_updEraseE (m : Mesh) (v k : Id) :
+    forgetCoords (m.updVertex v fun x => { x with ownEdges := x.ownEdges.erase k })
+      = (forgetCoords m).updVertex v fun x => { x with ownEdges := x.ownEdges.erase k } :=
+  c15_forget_updVertex m v (fun x => { x with ownEdges := x.ownEdges.erase k }) (fun _ => rfl)
+
+theorem c15_F_updEraseC (m : Mesh) (v k : Id) :
+    forgetCoords (m.updVertex v fun x => { x with ownCells := x.ownCells.erase k })
+      = (forgetCoords m).updVertex v fun x => { x with ownCells := x.ownCells.erase k } :=
+  c15_forget_updVertex m v (fun x => { x with ownCells := x.ownCells.erase k }) (fun _ => rfl)
+
+theorem c15_F_delEdge (m : Mesh) (k : Id) : forgetCoords (m.delEdge k) = (forgetCoords m).delEdge k := by
+  unfold Mesh.delEdge
+  rw [show (forgetCoords m).edge? k = m.edge? k from rfl]
+  cases m.edge? k with
+  | none => rfl
+  | some e =>
+    simp only
+    rw [← c15_F_updEraseE m e.v1, ← c15_F_updEraseE _ e.v2]
+    rfl
+
+theorem c15_F_edgeReplaceVertex (m : Mesh) (a b c : Id) :
+    forgetCoords (m.edgeReplaceVertex a b c) = (forgetCoords m).edgeReplaceVertex a b c := by
+  unfold Mesh.edgeReplaceVertex
+  rw [show (forgetCoords m).edge? a = m.edge? a from rfl]
+  cases m.edge? a with
+  | none => rfl
+  | some e =>
+    simp only
+    rw [c15_forget_updVertex _ c _ (c15_zero_addEdgeTo a)]
+    congr 1
+    show forgetCoords ((m.updVertex _ _).updEdge _ _) = _
+    rw [← c15_F_updEraseE m]
+    rfl
+
+theorem c15_F_delCell (m : Mesh) (k : Id) : forgetCoords (m.delCell k) = (forgetCoords m).delCell k := by
+  unfold Mesh.delCell
+  rw [show (forgetCoords m).cell? k = m.cell? k from rfl]
+  cases m.cell? k with
+  | none => rfl
+  | some c =>
+    simp only
+    have : ∀ (l : List Id) (m : Mesh),
+        forgetCoords (l.foldl (fun m v => m.updVertex v fun vx => { vx with ownCells := vx.ownCells.erase k }) m)
+        = l.foldl (fun m v => m.updVertex v fun vx => { vx with ownCells := vx.ownCells.erase k }) (forgetCoords m) := by
+      intro l
+      induction l with
+      | nil => intro m; rfl
+      | cons v l ih => intro m; simp only [List.foldl_cons]; rw [ih, c15_F_updEraseC]
+    rw [← this]
+    rfl
+
+def forgetSt (st : St) : St := { st with mesh := forgetCoords st.mesh }
+
+theorem c15_FS_getV (st : St) (k : Id) : (forgetSt st).getV k = (st.getV k).map zeroV := by
+  unfold St.getV forgetSt
+  simp only
+  split
+  · rfl
+  · rw [c15_forget_vertex?]; cases st.mesh.vertex? k <;> rfl
+
+theorem c15_FS_release (st : St) : (forgetSt st).release = forgetSt st.release := by
+  unfold St.release forgetSt
+  simp only
+  cases st.zombie with
+  | none => rfl
+  | some e =>
+    simp only
+    rw [c15_F_updEraseE, c15_F_updEraseE]
+
+theorem c15_FS_delEdge (st : St) (k : Id) : (forgetSt st).delEdge k = (st.delEdge k).map forgetSt := by
+  unfold St.delEdge
+  rw [show (forgetSt st).mesh.edge? k = st.mesh.edge? k from rfl]
+  cases st.mesh.edge? k with
+  | none => rfl
+  | some e =>
+    simp only
+    rw [show (forgetSt st).pinned = st.pinned from rfl]
+    split
+    · rfl
+    · simp only [Except.map, forgetSt, c15_F_delEdge]
+
+theorem c15_FS_liveDel (fuel : Nat) (st : St) (v : Id) (i : Nat) (rb : Bool) :
+    liveDel fuel (forgetSt st) v i rb = (liveDel fuel st v i rb).map forgetSt := by
+  induction fuel generalizing st i rb with
+  | zero => rfl
+  | succ n ih =>
+    simp only [liveDel]
+    rw [show (forgetSt st).mesh.ownEdges v = st.mesh.ownEdges v from forgetCoords_ownEdges _ _]
+    cases (st.mesh.ownEdges v)[i]? with
+    | none => rfl
+    | some x =>
+      simp only
+      have : (if rb = true then (forgetSt st).release else forgetSt st) = forgetSt (if rb = true then st.release else st) := by
+        cases rb <;> simp [c15_FS_release]
+      rw [this, c15_FS_delEdge]
+      cases (if rb = true then st.release else st).delEdge x with
+      | error e => rfl
+      | ok st' => exact ih st' (i + 1) false
+
+theorem c15_F_cellReplace (m : Mesh) (c a b : Id) :
+    cellReplace (forgetCoords m) c a b = (cellReplace m c a b).map forgetCoords := by
+  unfold cellReplace
+  rw [show (forgetCoords m).cell? c = m.cell? c from rfl]
+  cases m.cell? c with
+  | none => rfl
+  | some cl =>
+    simp only
+    split
+    · rfl
+    · split
+      · rfl
+      · simp only [Except.map]
+        rw [c15_forget_updVertex _ b _ (c15_zero_addCellTo c)]
+        rfl
+
+theorem c15_F_edgeReplace (m : Mesh) (c a b : Id) :
+    edgeReplace (forgetCoords m) c a b = (edgeReplace m c a b).map forgetCoords := by
+  unfold edgeReplace
+  rw [show (forgetCoords m).edge? c = m.edge? c from rfl]
+  cases m.edge? c with
+  | none => rfl
+  | some e =>
+    simp only [forgetCoords_ownEdges]
+    generalize (if (e.v1 == a) = true then e.v1 else e.v2) = oe
+    by_cases h : (!(m.ownEdges oe).contains c) = true
+    · rw [if_pos h, if_pos h]; rfl
+    · rw [if_neg h, if_neg h]; simp only [Except.map, c15_F_edgeReplaceVertex]
+
+def forgetSV (sv : St × List (Id × Id)) : St × List (Id × Id) := (forgetSt sv.1, sv.2)
+
+theorem c15_FS_foldDel (l : List Id) (st : St) :
+    foldE (fun st x => st.delEdge x) (forgetSt st) l = (foldE (fun st x => st.delEdge x) st l).map forgetSt :=
+  c15_foldE_map forgetSt _ _ (fun b a => c15_FS_delEdge b a) l st
+
+theorem c15_F_foldCellReplace (l : List Id) (m : Mesh) (a b : Id) :
+    foldE (fun m c => cellReplace m c a b) (forgetCoords m) l
+      = (foldE (fun m c => cellReplace m c a b) m l).map forgetCoords :=
+  c15_foldE_map forgetCoords _ _ (fun m c => c15_F_cellReplace m c a b) l m
+
+theorem c15_triTail (st : St) (m : Mesh) (vdel : Id) (vis : List (Id × Id)) (k : Id × Id) :
+    (match foldE (fun st x => st.delEdge x)
+        ({ mesh := forgetCoords m, dead := st.dead, pinned := st.pinned, zombie := st.zombie, idReused := st.idReused } : St)
+        ((forgetCoords m).ownEdges vdel) with
+      | Except.error e => Except.error e
+      | Except.ok st' => Except.ok (({ st' with dead := st'.dead ++ [vdel] } : St), vis ++ [k]))
+    = Except.map forgetSV
+      (match foldE (fun st x => st.delEdge x)
+        ({ mesh := m, dead := st.dead, pinned := st.pinned, zombie := st.zombie, idReused := st.idReused } : St)
+        (m.ownEdges vdel) with
+      | Except.error e => Except.error e
+      | Except.ok st' => Except.ok (({ st' with dead := st'.dead ++ [vdel] } : St), vis ++ [k])) := by
+  rw [forgetCoords_ownEdges]
+  have := c15_FS_foldDel (m.ownEdges vdel)
+    ({ mesh := m, dead := st.dead, pinned := st.pinned, zombie := st.zombie, idReused := st.idReused } : St)
+  simp only [forgetSt] at this
+  rw [this]
+  cases foldE (fun st x => st.delEdge x)
+    ({ mesh := m, dead := st.dead, pinned := st.pinned, zombie := st.zombie, idReused := st.idReused } : St)
+    (m.ownEdges vdel) <;> rfl
+
+theorem c15_FS_triStep' (bigs : List (List Id)) (st : St) (vis : List (Id × Id)) (k : Id × Id) :
+    triStep bigs (forgetSt st, vis) k = (triStep bigs (st, vis) k).map forgetSV := by
+  unfold triStep
+  simp only
+  by_cases hv : (vis.contains k || vis.contains (k.2, k.1)) = true
+  · simp only [if_pos hv]; rfl
+  simp only [if_neg hv]
+  cases firstLongest (sameEnds bigs k) with
+  | none => rfl
+  | some e0 =>
+  cases firstShortest (sameEnds bigs k) with
+  | none => rfl
+  | some e1 =>
+  simp only
+  cases minOf (e0.filter fun v => !e1.contains v) with
+  | none => rfl
+  | some vdel =>
+  simp only
+  by_cases hl : e0.length > 3
+  · simp only [if_pos hl]; rfl
+  simp only [if_neg hl]
+  rw [c15_FS_getV, c15_FS_getV]
+  cases st.getV vdel with
+  | error e => rfl
+  | ok vx =>
+  simp only [Except.map]
+  rw [show (zeroV vx).ownCells = vx.ownCells from rfl]
+  cases vx.ownCells with
+  | nil => exact c15_triTail st st.mesh vdel vis k
+  | cons c cs =>
+    cases st.getV (e0.headD 0) with
+    | error e => rfl
+    | ok t =>
+      simp only
+      rw [show (zeroV t).id = t.id from rfl, show (forgetSt st).mesh = forgetCoords st.mesh from rfl,
+        c15_F_foldCellReplace]
+      cases foldE (fun m c => cellReplace m c vdel t.id) st.mesh (c :: cs) with
+      | error e => rfl
+      | ok m => exact c15_triTail st m vdel vis k
+
+theorem c15_FS_triangles (st : St) (bigs : List (List Id)) :
+    triangles (forgetSt st) bigs = (triangles st bigs).map forgetSt := by
+  unfold triangles
+  have := c15_foldE_map forgetSV (triStep bigs) (triStep bigs)
+    (fun b a => c15_FS_triStep' bigs b.1 b.2 a) (dupKeys (firstLast bigs)) (st, [])
+  simp only [forgetSV] at this
+  rw [this]
+  cases foldE (triStep bigs) (st, []) (dupKeys (firstLast bigs)) <;> rfl
+
+theorem c15_FS_liveVertices (st : St) :
+    (forgetSt st).liveVertices = st.liveVertices.map fun p => (p.1, zeroV p.2) := by
+  simp only [St.liveVertices, forgetSt, forgetCoords, List.filter_map]
+  rfl
+
+theorem c15_FS_getArtifacts (st : St) (ext : List Id) : getArtifacts (forgetSt st) ext = getArtifacts st ext := by
+  simp only [getArtifacts, c15_FS_liveVertices, List.filter_map, List.map_map]
+  rfl
+
+theorem c15_FS_newVid (st : St) : newVid (forgetSt st) = newVid st := by
+  simp only [newVid, c15_FS_liveVertices, List.map_map]
+  rfl
+
+theorem c15_FS_addV (st : St) (all cur : List Id) :
+    addVerticesToCurrent (forgetSt st) all cur = addVerticesToCurrent st all cur := by
+  unfold addVerticesToCurrent
+  cases cur.getLast? with
+  | none => rfl
+  | some v0 =>
+    simp only
+    rw [c15_FS_getV]
+    cases st.getV v0 <;> rfl
+
+theorem c15_FS_group (fuel : Nat) (st : St) (l : List Id) :
+    groupArtifacts fuel (forgetSt st) l = groupArtifacts fuel st l := by
+  induction fuel generalizing l with
+  | zero => rfl
+  | succ n ih =>
+    cases l with
+    | nil => rfl
+    | cons a rest =>
+      simp only [groupArtifacts, c15_FS_addV, ih]
+
+theorem c15_FS_d16 (st : St) (g : List (List Id)) : d16Pred (forgetSt st) g = d16Pred st g := rfl
+
+theorem c15_F_foldEdgeReplace (l : List Id) (m : Mesh) (a b : Id) :
+    foldE (fun m c => edgeReplace m c a b) (forgetCoords m) l
+      = (foldE (fun m c => edgeReplace m c a b) m l).map forgetCoords :=
+  c15_foldE_map forgetCoords _ _ (fun m c => c15_F_edgeReplace m c a b) l m
+
+theorem c15_FS_t3Vertex (art : List Id) (newId : Id) (st : St) (v : Id) :
+    t3Vertex art newId (forgetSt st) v = (t3Vertex art newId st v).map forgetSt := by
+  unfold t3Vertex
+  rw [c15_FS_getV]
+  cases st.getV v with
+  | error e => rfl
+  | ok vx =>
+    simp only [Except.map]
+    rw [show (zeroV vx).ownEdges = vx.ownEdges from rfl, show (forgetSt st).mesh.edge? = st.mesh.edge? from rfl]
+    cases foldE (fun (acc : List Id × List Id) eid =>
+        match st.mesh.edge? eid with
+        | none => .error .keyError
+        | some e => if art.contains e.v1 && art.contains e.v2 then .ok (acc.1 ++ [eid], acc.2)
+                    else .ok (acc.1, acc.2 ++ [eid])) ([], []) vx.ownEdges with
+    | error e => rfl
+    | ok tr =>
+      obtain ⟨toRemove, toReplace⟩ := tr
+      simp only
+      rw [c15_FS_foldDel]
+      cases foldE (fun st k => st.delEdge k) st toRemove with
+      | error e => rfl
+      | ok st1 =>
+        simp only [Except.map]
+        rw [show (forgetSt st1).mesh = forgetCoords st1.mesh from rfl, c15_F_foldEdgeReplace]
+        cases foldE (fun m k => edgeReplace m k v newId) st1.mesh toReplace with
+        | error e => rfl
+        | ok m =>
+          simp only [Except.map]
+          rw [forgetCoords_ownCells, c15_F_foldCellReplace]
+          cases foldE (fun m c => cellReplace m c v newId) m (m.ownCells v) <;> rfl
+
+theorem c15_F_idem (m : Mesh) : forgetCoords (forgetCoords m) = forgetCoords m := by
+  simp only [forgetCoords, List.map_map]
+  rfl
+
+def t3Check (st : St) (v : Id) : Except Err St :=
+  match st.getV v with
+  | .error e => .error e
+  | .ok vx => if vx.ownEdges.isEmpty then .ok { st with dead := st.dead ++ [v] } else .ok st
+
+def t3Rest (art : List Id) (newId : Id) (st : St) : Except Err St :=
+  match foldE (t3Vertex art newId) st art with
+  | .error e => .error e
+  | .ok st => foldE t3Check st art
+
+def t3Collect (st : St) (acc : List Rat × List Rat) (v : Id) : Except Err (List Rat × List Rat) :=
+  match st.getV v with
+  | .error e => .error e
+  | .ok vx => .ok (acc.1 ++ [vx.x], acc.2 ++ [vx.y])
+
+theorem c15_t3_eq (st : St) (art : List Id) :
+    t3 st art = match foldE (t3Collect st) ([], []) art with
+      | .error e => .error e
+      | .ok (xs, ys) =>
+        t3Rest art (newVid st)
+          { st with mesh := st.mesh.mkVertex (newVid st) (mean xs) (mean ys),
+                    dead := st.dead.filter (· != newVid st),
+                    idReused := st.idReused || (st.mesh.vertex? (newVid st)).isSome } := rfl
+
+theorem c15_FS_t3Check (st : St) (v : Id) : t3Check (forgetSt st) v = (t3Check st v).map forgetSt := by
+  unfold t3Check
+  rw [c15_FS_getV]
+  cases st.getV v with
+  | error e => rfl
+  | ok vx =>
+    simp only [Except.map]
+    rw [show (zeroV vx).ownEdges = vx.ownEdges from rfl]
+    split <;> rfl
+
+theorem c15_FS_t3Rest (art : List Id) (n : Id) (st : St) :
+    t3Rest art n (forgetSt st) = (t3Rest art n st).map forgetSt := by
+  unfold t3Rest
+  rw [c15_foldE_map forgetSt _ _ (fun b a => c15_FS_t3Vertex art n b a)]
+  cases foldE (t3Vertex art n) st art with
+  | error e => rfl
+  | ok st1 =>
+    simp only [Except.map]
+    exact c15_foldE_map forgetSt _ _ (fun b a => c15_FS_t3Check b a) art st1
+
+theorem c15_t3Collect (st : St) (art : List Id) (acc acc' : List Rat × List Rat) :
+    (∃ e, foldE (t3Collect (forgetSt st)) acc' art = .error e ∧ foldE (t3Collect st) acc art = .error e) ∨
+    (∃ r r', foldE (t3Collect (forgetSt st)) acc' art = .ok r' ∧ foldE (t3Collect st) acc art = .ok r) := by
+  induction art generalizing acc acc' with
+  | nil => exact Or.inr ⟨acc, acc', rfl, rfl⟩
+  | cons v l ih =>
+    simp only [foldE, t3Collect, c15_FS_getV]
+    cases st.getV v with
+    | error e => exact Or.inl ⟨e, rfl, rfl⟩
+    | ok vx => exact ih _ _
+
+theorem c15_t3_coordfree (st : St) (art : List Id) :
+    (t3 (forgetSt st) art).map forgetSt = (t3 st art).map forgetSt := by
+  rw [c15_t3_eq, c15_t3_eq]
+  rcases c15_t3Collect st art ([], []) ([], []) with ⟨e, h1, h2⟩ | ⟨r, r', h1, h2⟩
+  · rw [h1, h2]
+  · rw [h1, h2]
+    obtain ⟨xs, ys⟩ := r
+    obtain ⟨xs', ys'⟩ := r'
+    simp only
+    have key : ∀ s : St, (t3Rest art (newVid st) s).map forgetSt = t3Rest art (newVid st) (forgetSt s) :=
+      fun s => (c15_FS_t3Rest art (newVid st) s).symm
+    rw [c15_FS_newVid, key, key]
+    congr 1
+    simp only [forgetSt, c15_forget_mkVertex, c15_F_idem, c15_forget_vertex?, Option.isSome_map]
+
+theorem c15_foldE_rel {α β : Type} (φ : β → β) (f : β → α → Except Err β)
+    (h : ∀ b a, (f (φ b) a).map φ = (f b a).map φ) (l : List α) (b b' : β) (hb : φ b = φ b') :
+    (foldE f b l).map φ = (foldE f b' l).map φ := by
+  induction l generalizing b b' with
+  | nil => simp only [foldE, Except.map, hb]
+  | cons a l ih =>
+    have h1 : (f b a).map φ = (f b' a).map φ := by rw [← h b a, ← h b' a, hb]
+    simp only [foldE]
+    cases hfa : f b a with
+    | error e =>
+      cases hfb : f b' a with
+      | error e' => rw [hfa, hfb] at h1; simp only [Except.map] at h1; injection h1 with h1; subst h1; rfl
+      | ok b2 => rw [hfa, hfb] at h1; simp only [Except.map] at h1; cases h1
+    | ok b1 =>
+      cases hfb : f b' a with
+      | error e' => rw [hfa, hfb] at h1; simp only [Except.map] at h1; cases h1
+      | ok b2 =>
+        rw [hfa, hfb] at h1; simp only [Except.map] at h1; injection h1 with h1
+        exact ih b1 b2 h1
+
+theorem c15_FS_live (st : St) : (forgetSt st).live = st.live := by
+  funext k
+  simp only [St.live, forgetSt, c15_forget_vertex?, Option.isSome_map]
+
+theorem c15_F_finalMesh (st : St) : forgetCoords (finalMesh st) = finalMesh (forgetSt st) := by
+  simp only [finalMesh, c15_FS_live, c15_FS_liveVertices]
+  rfl
+
+def forgetAcc (acc : St × Bool × List Id) : St × Bool × List Id := (forgetSt acc.1, acc.2.1, acc.2.2)
+def forgetSB (a : St × Bool) : St × Bool := (forgetSt a.1, a.2)
+
+def c15IsoInner (a : St × Bool) (v : Id) : Except Err (St × Bool) :=
+  let n := (a.1.mesh.ownEdges v).length
+  match liveDel (n + 1) a.1 v 0 a.2 with
+  | .error e => .error e
+  | .ok st' =>
+    let st'' := if st'.dead.contains v then st' else { st' with dead := st'.dead ++ [v] }
+    .ok (st'', a.2 && n == 0)
+
+theorem c15_isolatedStep_eq (acc : St × Bool × List Id) (c : Id × Cell) :
+    isolatedStep acc c =
+      if c.2.verts.all fun v => decide ((acc.1.mesh.ownCells v).length ≤ 1) then
+        match foldE c15IsoInner (acc.1, acc.2.1) c.2.verts with
+        | .error e => .error e
+        | .ok a => .ok (a.1, a.2, acc.2.2 ++ [c.1])
+      else .ok acc := rfl
+
+theorem c15_FS_isoInner (st : St) (b : Bool) (v : Id) :
+    c15IsoInner (forgetSt st, b) v = (c15IsoInner (st, b) v).map forgetSB := by
+  unfold c15IsoInner
+  simp only
+  rw [show (forgetSt st).mesh.ownEdges v = st.mesh.ownEdges v from forgetCoords_ownEdges _ _, c15_FS_liveDel]
+  cases liveDel ((st.mesh.ownEdges v).length + 1) st v 0 b with
+  | error e => rfl
+  | ok st' =>
+    simp only [Except.map, forgetSB]
+    rw [show (forgetSt st').dead = st'.dead from rfl]
+    split <;> rfl
+
+theorem c15_FS_isolatedStep (st : St) (b : Bool) (iso : List Id) (c : Id × Cell) :
+    isolatedStep (forgetSt st, b, iso) c = (isolatedStep (st, b, iso) c).map forgetAcc := by
+  rw [c15_isolatedStep_eq, c15_isolatedStep_eq]
+  simp only
+  rw [show (forgetSt st).mesh.ownCells = st.mesh.ownCells from funext (forgetCoords_ownCells _)]
+  split
+  · have := c15_foldE_map forgetSB c15IsoInner c15IsoInner (fun a v => c15_FS_isoInner a.1 a.2 v) c.2.verts (st, b)
+    simp only [forgetSB] at this
+    rw [this]
+    cases foldE c15IsoInner (st, b) c.2.verts <;> rfl
+  · rfl
+
+/-- a lattice / a result of `create_lattice` with the vertex coordinates forgotten -/
+def forgetLattice (l : Lattice) : Lattice := { l with mesh := forgetCoords l.mesh }
+def forgetResult (r : Except Err Lattice × Bool) : Except Err Lattice × Bool := (r.1.map forgetLattice, r.2)
+
+def c15Tail (border external : List Id) (bigs groups : List (List Id)) (triDel : List Id) (d16 : Bool) (st2 : St) :
+    Except Err Lattice × Bool :=
+  match foldE isolatedStep (st2, true, []) st2.mesh.cells with
+  | .error e => (.error e, d16)
+  | .ok (st3, _, iso) =>
+    let st4 := st3.release
+    let m := iso.foldl (fun m c => m.delCell c) st4.mesh
+    let st5 := { st4 with mesh := m }
+    (.ok { mesh := finalMesh st5, border := border.filter (fun c => !iso.contains c),
+           external := external.filter (fun k => (st5.mesh.edge? k).isSome),
+           bigEdges := bigs, artifacts := groups, triangleDeleted := triDel, isolated := iso,
+           zombieSeen := d16, idReused := st5.idReused }, d16)
+
+theorem c15_F_foldDelCell (iso : List Id) (m : Mesh) :
+    forgetCoords (iso.foldl (fun m c => m.delCell c) m) = iso.foldl (fun m c => m.delCell c) (forgetCoords m) := by
+  induction iso generalizing m with
+  | nil => rfl
+  | cons a l ih => simp only [List.foldl_cons]; rw [ih, c15_F_delCell]
+
+theorem c15_FS_tail (border external : List Id) (bigs groups : List (List Id)) (triDel : List Id) (d16 : Bool)
+    (st2 : St) :
+    c15Tail border external bigs groups triDel d16 (forgetSt st2)
+      = forgetResult (c15Tail border external bigs groups triDel d16 st2) := by
+  unfold c15Tail
+  have := c15_foldE_map forgetAcc isolatedStep isolatedStep
+    (fun a c => c15_FS_isolatedStep a.1 a.2.1 a.2.2 c) st2.mesh.cells (st2, true, [])
+  simp only [forgetAcc] at this
+  rw [show (forgetSt st2).mesh.cells = st2.mesh.cells from rfl, this]
+  cases foldE isolatedStep (st2, true, []) st2.mesh.cells with
+  | error e => rfl
+  | ok r =>
+    obtain ⟨st3, b, iso⟩ := r
+    simp only [Except.map, forgetAcc]
+    rw [c15_FS_release]
+    simp only [forgetResult, forgetLattice, Except.map, c15_F_finalMesh]
+    rw [show (forgetSt st3.release).mesh = forgetCoords st3.release.mesh from rfl, ← c15_F_foldDelCell]
+    rfl
+
+def c15St0 (m0 : Mesh) : St :=
+  { mesh := m0, dead := [], pinned := (m0.edges.getLast?.map (·.1)), zombie := none, idReused := false }
+
+theorem c15_cleanup_eq (m0 : Mesh) :
+    cleanup m0 =
+      match triangles (c15St0 m0) m0.bigEdgesList with
+      | .error e => (.error e, false)
+      | .ok st1 =>
+        match groupArtifacts ((getArtifacts st1 (externalEdges m0)).length + 1) st1 (getArtifacts st1 (externalEdges m0)) with
+        | .error e => (.error e, st1.zombie.isSome)
+        | .ok groups =>
+          match foldE t3 st1 groups with
+          | .error e => (.error e, d16Pred st1 groups)
+          | .ok st2 => c15Tail (borderCells m0) (externalEdges m0) m0.bigEdgesList groups st1.dead (d16Pred st1 groups) st2 :=
+  rfl
+
+theorem c15_cleanup_coordfree (m0 : Mesh) : forgetResult (cleanup (forgetCoords m0)) = forgetResult (cleanup m0) := by
+  rw [c15_cleanup_eq, c15_cleanup_eq]
+  simp only [forgetCoords_bigEdgesList, forgetCoords_borderCells, forgetCoords_externalEdges]
+  rw [show c15St0 (forgetCoords m0) = forgetSt (c15St0 m0) from rfl, c15_FS_triangles]
+  cases triangles (c15St0 m0) m0.bigEdgesList with
+  | error e => rfl
+  | ok st1 =>
+    simp only [Except.map, c15_FS_getArtifacts, c15_FS_group, c15_FS_d16]
+    cases hg : groupArtifacts ((getArtifacts st1 (externalEdges m0)).length + 1) st1 (getArtifacts st1 (externalEdges m0)) with
+    | error e => rfl
+    | ok groups =>
+      simp only
+      have hrel := c15_foldE_rel forgetSt t3 (fun b a => c15_t3_coordfree b a) groups (forgetSt st1) st1
+        (by simp only [forgetSt, c15_F_idem])
+      rw [show (forgetSt st1).dead = st1.dead from rfl]
+      cases h1 : foldE t3 (forgetSt st1) groups with
+      | error e =>
+        cases h2 : foldE t3 st1 groups with
+        | error e' => rw [h1, h2] at hrel; simp only [Except.map] at hrel; injection hrel with hrel; subst hrel; rfl
+        | ok s => rw [h1, h2] at hrel; simp only [Except.map] at hrel; cases hrel
+      | ok s' =>
+        cases h2 : foldE t3 st1 groups with
+        | error e' => rw [h1, h2] at hrel; simp only [Except.map] at hrel; cases hrel
+        | ok s =>
+          rw [h1, h2] at hrel; simp only [Except.map] at hrel; injection hrel with hrel
+          simp only
+          rw [← c15_FS_tail, ← c15_FS_tail, hrel]
+
+
+theorem c15_keysNodup_map {β γ : Type} (g : β → γ) (l : List (Id × β)) :
+    keysNodup (l.map fun p => (p.1, g p.2)) = keysNodup l := by
+  induction l with
+  | nil => rfl
+  | cons a l ih =>
+    obtain ⟨k, v⟩ := a
+    simp only [List.map_cons, keysNodup, ih, List.any_map]
+    rfl
+
+theorem c15_forget_consistent (m : Mesh) : (forgetCoords m).Consistent = m.Consistent := by
+  have hv : ∀ k, ((forgetCoords m).vertex? k).isSome = (m.vertex? k).isSome := by
+    intro k; rw [c15_forget_vertex?, Option.isSome_map]
+  have h1 : (forgetCoords m).keysOk = m.keysOk := by
+    simp only [keysOk, forgetCoords, List.all_map, c15_keysNodup_map]; rfl
+  have h2 : (forgetCoords m).ownEdgesOk = m.ownEdgesOk := by
+    simp only [ownEdgesOk, forgetCoords, List.all_map]; rfl
+  have h3 : (forgetCoords m).ownCellsOk = m.ownCellsOk := by
+    simp only [ownCellsOk, forgetCoords, List.all_map]; rfl
+  have h4 : (forgetCoords m).refsOk = m.refsOk := by
+    simp only [refsOk, hv]; rfl
+  have h5 : (forgetCoords m).cellsNodup = m.cellsNodup := rfl
+  have h6 : (forgetCoords m).cyclesJoined = m.cyclesJoined := rfl
+  simp only [Consistent, h1, h2, h3, h4, h5, h6]
+
 end Forsys.Skel
